@@ -86,17 +86,19 @@ func fieldBits(frame []byte, field string) int {
 }
 
 // decryptAll feeds the stream to hc's Decrypt until it is exhausted or an error is reported.
-func decryptAll(c hccrypto.Cryptographer, stream []byte) (released []byte, err error) {
+// okEnd is the stream offset up to which calls that reported success had consumed the stream.
+func decryptAll(c hccrypto.Cryptographer, stream []byte) (released []byte, okEnd int, err error) {
 	r := bytes.NewReader(stream)
 	for r.Len() > 0 {
 		out, e := c.Decrypt(r)
 		if e != nil {
-			return released, e
+			return released, okEnd, e
 		}
+		okEnd = len(stream) - r.Len()
 		b, _ := ioutil.ReadAll(out)
 		released = append(released, b...)
 	}
-	return released, nil
+	return released, okEnd, nil
 }
 
 func secchanFamily(a *Args) error {
@@ -170,6 +172,7 @@ func secchanFamily(a *Args) error {
 		var lines []J
 		for v := 0; v < variants; v++ {
 			var stream []byte
+			offs := []int{}
 			for k, it := range wire {
 				fr := mat[it.Sess+"/"+it.Dir].wire[it.Idx-1]
 				switch it.Alt {
@@ -197,6 +200,7 @@ func secchanFamily(a *Args) error {
 					fr = make([]byte, 18) // length 0, forged tag
 					rng.Read(fr[2:])
 				}
+				offs = append(offs, len(stream))
 				stream = append(stream, fr...)
 				if it.Alt == "cut" {
 					break // the stream ends inside this frame
@@ -210,7 +214,10 @@ func secchanFamily(a *Args) error {
 				mu.Unlock()
 				return
 			}
-			released, derr := decryptAll(c, stream)
+			for len(offs) < len(wire) {
+				offs = append(offs, len(stream))
+			}
+			released, okEnd, derr := decryptAll(c, stream)
 			// which prefix of the sent plaintexts is it?
 			sent := mat["this/fwd"].plain
 			nrel, relok := 0, true
@@ -223,7 +230,7 @@ func secchanFamily(a *Args) error {
 				rest = rest[len(sent[nrel]):]
 				nrel++
 			}
-			lines = append(lines, J{"ev": "stream", "case": b.ID, "i": len(wire) - 1, "v": v, "level": "decrypt", "wire": wire, "nrel": nrel, "relok": relok, "err": derr != nil})
+			lines = append(lines, J{"ev": "stream", "case": b.ID, "i": len(wire) - 1, "v": v, "level": "decrypt", "wire": wire, "nrel": nrel, "relok": relok, "err": derr != nil, "offs": offs, "okend": okEnd})
 		}
 		tr.Block(lines)
 		mu.Lock()
@@ -341,9 +348,9 @@ func framingFamily(a *Args) error {
 			// keep the reference receiver aligned with the reference sender whatever hc did
 			refCtl.ReadCtr = refAcc.WriteCtr
 			// hc's Decrypt of hc's own bytes and of the reference controller's bytes
-			rt, _ := decryptAll(hcCtl, hcBytes)
+			rt, _, _ := decryptAll(hcCtl, hcBytes)
 			ctlBytes := refCtl.SealMessage(payload)
-			dr, derr := decryptAll(hcAcc2, ctlBytes)
+			dr, _, derr := decryptAll(hcAcc2, ctlBytes)
 			lines = append(lines, J{"ev": "enc", "case": b.ID, "i": k, "n": m.Len, "chunk": m.Chunk, "ctr0": ctr0,
 				"frames": frames, "ctrs": ctrs, "sameAsRef": eerr == nil && bytes.Equal(hcBytes, refBytes),
 				"roundtrip": bytes.Equal(rt, payload), "decOfRef": derr == nil && bytes.Equal(dr, payload),
